@@ -30,6 +30,10 @@ def build_roots(tier):
                 for j in range(n):
                     add('r_idx_%s_%d%d' % (tag, i, j), 'pub fn r_idx_%s_%d%d(a: &%s) -> &f32 { &a[(%d, %d)] }' % (tag, i, j, T, i, j), kind='idx', n=n, l=L, i=i, j=j)
                     add('r_idxm_%s_%d%d' % (tag, i, j), 'pub fn r_idxm_%s_%d%d(a: &mut %s, v: f32) { a[(%d, %d)] = v; }' % (tag, i, j, T, i, j), kind='idxm', n=n, l=L, i=i, j=j)
+            # out-of-range (row, col): a panic, never a neighbouring element (a flat bounds check would accept (n, 0))
+            for (i, j) in ((n, 0), (0, n), (n, n - 1), (n - 1, n)):
+                add('r_idxoob_%s_%d%d' % (tag, i, j), 'pub fn r_idxoob_%s_%d%d(a: &%s) -> &f32 { &a[(%d, %d)] }' % (tag, i, j, T, i, j), kind='idxoob', n=n, l=L, i=i, j=j)
+                add('r_idxmoob_%s_%d%d' % (tag, i, j), 'pub fn r_idxmoob_%s_%d%d(a: &mut %s, v: f32) { a[(%d, %d)] = v; }' % (tag, i, j, T, i, j), kind='idxoob', n=n, l=L, i=i, j=j)
             add('r_transposed_' + tag, 'pub fn r_transposed_%s(a: %s) -> %s { a.transposed() }' % (tag, T, T), kind='unary', f='transposed', n=n, l=L)
             add('r_transpose_' + tag, 'pub fn r_transpose_%s(a: &mut %s) { a.transpose() }' % (tag, T), kind='inplace', f='transposed', n=n, l=L)
             add('r_diagonal_' + tag, 'pub fn r_diagonal_%s(a: %s) -> %s { a.diagonal() }' % (tag, T, V), kind='diagonal', n=n, l=L)
@@ -167,6 +171,11 @@ def run(ctx):
                         for a in at: walk(a)
                         want = {alg._ATOMS[list(A[i][j].atoms())[0]][1]}
                         ctx.ob('%s/dep(%d,%d)' % (key, i, j), deps == want, 'dep: numcast element depends on exactly its own source element', r.code, want, deps)
+            done += 1
+            continue
+        if k == 'idxoob':
+            outs = [q.out for q in res.paths]
+            ctx.ob(key, bool(outs) and all(o == 'panic' for o in outs), 'paths: an index outside the matrix panics (it never denotes another element)', r.code, 'panic', outs)
             done += 1
             continue
         try:
